@@ -21,9 +21,9 @@ const preludeFixed = `(set-option :produce-models true)
 (declare-datatypes ((Iface 0)) (((mk-iface (i_type Int) (i_val Int)))))
 (declare-fun str_len (Str) Int)
 (declare-fun str_at (Str Int) Int)
-(declare-fun elem (Int Int) Int)
-(declare-fun elem_arr (Int) Int)
-(declare-fun elem_idx (Int) Int)
+(define-fun elem ((a Int) (i Int)) Int (- (- (+ (* a 288230376151711744) i)) 1))
+(define-fun elem_arr ((r Int)) Int (ite (< r 0) (div (- (- r) 1) 288230376151711744) 0))
+(define-fun elem_idx ((r Int)) Int (ite (< r 0) (mod (- (- r) 1) 288230376151711744) 0))
 (declare-fun uf_and (Int Int) Int)
 (declare-fun uf_or (Int Int) Int)
 (declare-fun uf_xor (Int Int) Int)
@@ -313,10 +313,13 @@ func (c *sortCtx) typeInv(v string, t types.Type) string {
 		}
 	case *types.Slice:
 		return fmt.Sprintf("(slice_wf %s)", v)
-	case *types.Pointer, *types.Map, *types.Chan, *types.Signature:
+	case *types.Map, *types.Chan, *types.Signature:
 		return fmt.Sprintf("(>= %s 0)", v)
+	case *types.Pointer:
+		// references to elements of struct arrays are negative (see elem in the prelude), nil is 0
+		return ""
 	case *types.Interface:
-		return fmt.Sprintf("(and (>= (i_type %s) 0) (>= (i_val %s) 0) (=> (= (i_type %s) 0) (= (i_val %s) 0)))", v, v, v, v)
+		return fmt.Sprintf("(and (>= (i_type %s) 0) (=> (= (i_type %s) 0) (= (i_val %s) 0)))", v, v, v)
 	case *types.Struct:
 		var parts []string
 		for i := 0; i < u.NumFields(); i++ {
